@@ -1,6 +1,6 @@
 //! C19 — strategy distance is a well-defined, bounded, symmetric dissimilarity.
 //! Enumerated: every valid skeleton (incl. games where a player has no multi-action infoset) x
-//! every ordered pair of grid profiles x p in {0.25, 0.5, 1, 2, 7.5, 100}; the two documented panics.
+//! every ordered pair of grid profiles x p in {0.25, 0.5, 1, 2, 7.5, 100, 2000}; the two documented panics.
 use super::{profiles, universe_summary};
 use crate::framework::{guarded, Ctx};
 use crate::refmodel::Profile;
@@ -10,7 +10,7 @@ use crate::universe::{families, fill_distinct, skeletons, Bounds};
 use rayon::prelude::*;
 use serde_json::json;
 
-const PS: [f64; 6] = [0.25, 0.5, 1.0, 2.0, 7.5, 100.0];
+const PS: [f64; 7] = [0.25, 0.5, 1.0, 2.0, 7.5, 100.0, 2000.0];
 
 pub fn check_pair(ctx: &Ctx, tree: &Tree, left: &Profile, right: &Profile, p: f64) -> bool {
     let replay = json!({"tree": tree.to_replay(), "left": profile_json(left), "right": profile_json(right), "p": p});
@@ -55,7 +55,7 @@ pub fn check_pair(ctx: &Ctx, tree: &Tree, left: &Profile, right: &Profile, p: f6
         if !same && !(val > 0.0) {
             // |d|^p may underflow for large p and tiny differences: grid differences are >= 0.25,
             // 0.25^100 = 6e-61 is representable, so no excuse on this alphabet
-            fail("zero-for-different", format!("distance {} for different strategies", val));
+            fail(if p > 500.0 { "zero-for-different:p-underflow" } else { "zero-for-different" }, format!("distance {} for different strategies", val));
         }
         if val.to_bits() != ba[pl].to_bits() {
             fail("asymmetric", format!("d(a,b)={} but d(b,a)={}", val, ba[pl]));
@@ -123,7 +123,7 @@ pub fn run(ctx: &Ctx) -> i32 {
     });
     ctx.assume("probability differences below 0.25 combined with p=100 (underflow of |d|^p to 0) are outside the grid");
     ctx.finish(
-        "every valid skeleton within the bounds and the curated families x every ordered pair of grid profiles x p in {0.25,0.5,1,2,7.5,100}, plus the panic cases (p in {0,-0,-1,-inf}; different game object) on every game; non-trivial = the two profiles differ",
+        "every valid skeleton within the bounds and the curated families x every ordered pair of grid profiles x p in {0.25,0.5,1,2,7.5,100,2000}, plus the panic cases (p in {0,-0,-1,-inf}; different game object) on every game; non-trivial = the two profiles differ",
         true,
         "E-INPUT: Strategies::distance on every enumerated pair, checked against the stated range / zero / positivity / symmetry / panic clauses",
     )
